@@ -301,6 +301,34 @@ fn verif_native_c04_macro_termination() {
     assert!(ctx.op("d:45").is_ok(), "C04.N.macro.termination: a 45-deep acyclic chain instantiates");
 }
 
+//@n {"id":"C04.N.macro.branching","props":["C04","C09"],"tier":"quick","bound":"cyclic macro graphs whose bodies mention the cycle two or three times per level (self-referential 2- and 3-fold pipelines, a 2-cycle with fan-out 2, a cycle reached behind a valid step); each instantiated in its own thread with a 20 s limit","text":"for self-referential and mutually recursive macro definitions instantiation returns an error value in bounded time also when every level of the expansion mentions the cycle several times (the work must not grow exponentially with the nesting limit)"}
+#[test]
+fn verif_native_c04_macro_branching() {
+    let defs = ["b:three", "b:two", "b:p", "addone | b:three", "b:late"];
+    let mut bad = Vec::new();
+    for def in defs {
+        let (tx, rx) = std::sync::mpsc::channel();
+        let d = def.to_string();
+        std::thread::spawn(move || {
+            let mut ctx = Minimal::default();
+            ctx.register_resource("b:three", "b:three | b:three | b:three");
+            ctx.register_resource("b:two", "addone | b:two | b:two");
+            ctx.register_resource("b:p", "b:q | b:q");
+            ctx.register_resource("b:q", "b:p | addone | b:p");
+            ctx.register_resource("b:late", "addone | helmert x=1 | b:late | b:late | b:late");
+            let r = std::panic::catch_unwind(std::panic::AssertUnwindSafe(|| ctx.op(&d).is_err()));
+            let _ = tx.send(r);
+        });
+        match rx.recv_timeout(std::time::Duration::from_secs(20)) {
+            Ok(Ok(true)) => {}
+            Ok(Ok(false)) => bad.push(format!("`{def}` (cyclic) instantiates")),
+            Ok(Err(_)) => bad.push(format!("`{def}` panics")),
+            Err(_) => bad.push(format!("`{def}` does not return within 20 s")),
+        }
+    }
+    assert!(bad.is_empty(), "C04.N.macro.branching: {} of {} definitions: {:?}", bad.len(), defs.len(), bad);
+}
+
 //@n {"id":"C03.N.pipeline.text","props":["C03"],"tier":"quick","bound":"22 textual pipelines over addone/helmert with </> sugar, omit_fwd/omit_inv (suffix, infix, =true form), inv in prefix/infix/suffix position, one-step pipelines and one-step macro bodies; through Minimal; both directions; 2 tuples","text":"a step marked omit_fwd (or introduced by <) is skipped forward and executed inverse, omit_inv (or >) the opposite, also when it is the only step of a pipeline or of a macro body; inv anywhere in a step's definition exchanges its directions; counts report all tuples"}
 #[test]
 fn verif_native_c03_pipeline_text() {
